@@ -13,6 +13,10 @@ use crate::kshim::collections::HashSet;
 use std::net::{IpAddr, Ipv4Addr, Ipv6Addr};
 
 fn ipv6_case(proto: Option<u8>, m: usize, n: usize, lists: bool) {
+    ipv6_case_ex(proto, m, n, lists, true)
+}
+/// csum = false: address mirroring / header fields only, the checksum miter is left to the c04_* instances
+fn ipv6_case_ex(proto: Option<u8>, m: usize, n: usize, lists: bool, csum: bool) {
     let mut buf: [u8; 64] = kani::any();
     match proto {
         Some(p) => buf[6] = p,
@@ -120,7 +124,7 @@ fn ipv6_case(proto: Option<u8>, m: usize, n: usize, lists: bool) {
     if i != ck && i != ck + 1 && !(buf[6] == 17 && (i == 4 || i == 5)) {
         assert!(l4[i] == rec.bytes[i], "C03: transport bytes altered by the IPv6 layer");
     }
-    if lists {
+    if lists || !csum {
         kani::cover!(true, "reply emitted");
         kani::cover!(is_na, "neighbour advertisement emitted");
         return;
@@ -494,4 +498,25 @@ fn ipv6_denied_source() {
 #[kani::stub(crate::layer_4::udp::repl, crate::verif_util::l4_udp_stub)]
 fn c02_ipv6_denied_source() {
     ipv6_denied_source()
+}
+
+
+//# harness: c03_ipv6_mirror_icmp
+//# props: C03 C04 C01
+//# tier: quick
+//# encodes: layer_3::ipv6::repl
+//# bounds: 40-byte IPv6 request header symbolic (version, traffic class, flow label, payload length, hop limit free; source and destination address: octets 0, 14, 15 symbolic, others zero), next header = ICMPv6, 8 transport bytes in the request; layer-4 reply of 8 arbitrary bytes or silence (echo-style reply, or type 136 + solicited target - any target, any destination, multicast or not); no self-IP list and no deny list
+//# stubs: layer_4::{icmpv6,tcp,udp}::repl -> None or a transport packet of 8 arbitrary bytes (ICMPv6 NA: with the solicited target)
+//# out: transport checksum (c04_ipv6_*); scope filters (c02_ipv6_*); extension headers
+//# known: c02.icmpv6_echo_foreign_destination
+//# cover: reply emitted
+//# cover: layer 4 silent
+//# cover: neighbour advertisement emitted
+#[kani::proof]
+#[kani::unwind(44)]
+#[kani::stub(crate::layer_4::icmpv6::repl, crate::verif_util::l4_icmpv6_stub)]
+#[kani::stub(crate::layer_4::tcp::repl, crate::verif_util::l4_tcp_stub)]
+#[kani::stub(crate::layer_4::udp::repl, crate::verif_util::l4_udp_stub)]
+fn c03_ipv6_mirror_icmp() {
+    ipv6_case_ex(Some(58), 8, 8, false, false)
 }
